@@ -4,7 +4,14 @@ import json, os
 V = os.path.dirname(os.path.dirname(os.path.abspath(__file__)))
 TB = "Trusted base: rustc nightly's MIR lowering, the rws-facts extractor, the CHA call graph (over-approximating), the reviewed tables under /verif/tables (exempt std panics, file-system API classes, allowlisted sites with one-line reasons)."
 P = {
- "C01": None, "C02": None, "C03": None, "C05": None, "C09": None, "C10": None, "C11": None, "C12": None, "C14": None, "C15": None, "C17": None, "C18": None, "C19": None,
+ "C01": ("other", "Sufficient modulo the predicate's body: every content-disclosing file read whose path derives from the request target is reachable from the connection roots only through call edges dominated by the pass edge of the path-containment predicate (both entry points); refusal carries an error status; the predicate compares path segments with '..' on both separators.",
+         "interprocedural taint + cut-edge call-graph reachability + edge dominance on MIR", "§4 C01"),
+ "C02": None, "C03": None,
+ "C05": ("other", "Six structural clauses: response bytes go out through Write::write_all; headers built by the request parser come from the CR/LF stripper; status_code and reason_phrase are always taken from the same registered status entry; the body reaches the bytes only where the method is neither HEAD nor OPTIONS; Content-Length/Content-Type derive from the emitted content range; header lines are name, ': ', value, CRLF with framing headers built in exclusive branches. Wire bytes are not re-parsed.",
+         "MIR call-site rules, constant/table extraction, forward pairing of field assignments, edge dominance", "§4 C05"),
+ "C09": None,
+ "C10": ("other", "Structurally sufficient: the default-header builder pushes each of the six required headers exactly once on every path with the required value (Vary provably names Origin), every reachable Response is built from the builder's result, no reachable code removes or re-creates those headers, and the serialiser iterates the whole list.",
+         "must-pass-through / exactly-once CFG checks, who-may-construct and who-may-mutate rules, dataflow of the Vary value", "§4 C10"), "C11": None, "C12": None, "C14": None, "C15": None, "C17": None, "C18": None, "C19": None,
  "C04": ("other", "Sufficient modulo the reviewed tables: every potential panic site (unwrap/expect, documented-panicking std call, overflow/bounds/division assert, explicit panic) reachable from the connection roots is guarded by a dominating check, exempt by table or allowlisted with a reason; no input-driven recursion; exactly one response write on every path; error edges answer with the 400 constructor. Genuine residual defects are listed as known findings.",
          "MIR panic-site inventory + dominance-based guard recognition over the call graph; SCC recursion check; CFG path counting", "§4 C04"),
  "C06": ("other", "Structural: panics of request handling are contained by catch_unwind (cut-edge reachability from the worker loop), the accept loop returns only when the listener is exhausted, the queue lock is not held while a task runs, the worker loop has no exit; stack-exhausting recursion is reported.",
